@@ -186,7 +186,7 @@ def run(ctx):
         ctx.obligation("translate_cfg", True)
     except TC.Refuse as e:
         ctx.obligation("translate_cfg", False, f"translator refused: {e}")
-    ok, out = ctx.build(["proofs/TrimProofs.vo", "proofs/ShapeProofs.vo", "proofs/UsefulProofs.vo", "proofs/TopDownTrimProofs.vo", "proofs/TrimUsefulProofs.vo", "model/Useful.vo", "model/Cky.vo", "model/TopDown.vo"])
+    ok, out = ctx.build(["proofs/TrimProofs.vo", "proofs/ShapeProofs.vo", "proofs/UsefulProofs.vo", "proofs/TopDownTrimProofs.vo", "proofs/TrimUsefulProofs.vo", "proofs/CompareSpecs.vo", "model/Useful.vo", "model/Cky.vo", "model/TopDown.vo"])
     if ok:
         ctx.prove("props/C07.v")
     else:
